@@ -1,0 +1,49 @@
+//go:build verif
+
+// Contracts of the bundled example store for the deductive verification in /verif (comment-only).
+//
+// Ghost maps (declared in /verif/contracts/external.contracts): sm_dom/sm_val model each sync.Map as a finite map.
+// recMap(r) is the address of the sync.Map embedded in a *Records.
+
+package server
+
+//@ spec func hasRec(r ref, k string) bool = sm_dom[&r.Map][iface(k)]
+//@ spec func isRec(r ref, k string) bool = sm_dom[&r.Map][iface(k)] && typeis(sm_val[&r.Map][iface(k)], "*server.Record") && unbox(sm_val[&r.Map][iface(k)], "*server.Record") != nil
+//@ spec func recOf(r ref, k string) ref = unbox(sm_val[&r.Map][iface(k)], "*server.Record")
+
+// Every stored value is a non-nil *Record whose Data is a string, a non-nil Hash, *List, *Set or *ZSet.
+//@ spec func dataOK(d iface) bool = typeis(d, "string") || (typeis(d, "server.Hash") && unbox(d, "server.Hash") != nil) || (typeis(d, "*server.List") && unbox(d, "*server.List") != nil) || (typeis(d, "*server.Set") && unbox(d, "*server.Set") != nil) || (typeis(d, "*server.ZSet") && unbox(d, "*server.ZSet") != nil)
+//@ spec func recsOK(r ref) bool = r != nil && (forall k iface :: sm_dom[&r.Map][k] ==> typeis(sm_val[&r.Map][k], "*server.Record") && unbox(sm_val[&r.Map][k], "*server.Record") != nil && dataOK(unbox(sm_val[&r.Map][k], "*server.Record").Data))
+
+// ---------------------------------------------------------------- records.go
+
+//@ func (*Records).SetRecord
+//@ requires record != nil
+//@ assigns sm_dom[&rmap.Map], sm_val[&rmap.Map]
+//@ ensures {C18} result == nil && isRec(rmap, record.Key) && recOf(rmap, record.Key) == record
+//@ ensures {C18} forall k iface :: k != iface(record.Key) ==> sm_dom[&rmap.Map][k] == old(sm_dom[&rmap.Map][k]) && sm_val[&rmap.Map][k] == old(sm_val[&rmap.Map][k])
+
+//@ func (*Records).HasRecord
+//@ assigns nothing
+//@ ensures {C18} result == hasRec(rmap, key)
+
+//@ func (*Records).GetRecord
+//@ assigns nothing
+//@ ensures {C18} result1 <==> (hasRec(rmap, key) && typeis(sm_val[&rmap.Map][iface(key)], "*server.Record"))
+//@ ensures {C18} result1 ==> result0 == recOf(rmap, key)
+//@ ensures {C18} !result1 ==> result0 == nil
+
+//@ func (*Records).RemoveRecord
+//@ assigns sm_dom[&rmap.Map]
+//@ ensures {C18} result == nil <==> old(hasRec(rmap, key))
+//@ ensures {C18} !hasRec(rmap, key)
+//@ ensures {C18} forall k iface :: k != iface(key) ==> sm_dom[&rmap.Map][k] == old(sm_dom[&rmap.Map][k])
+
+//@ func (*Records).RenameRecord
+//@ requires {C18} recsOK(rmap)
+//@ assigns sm_dom[&rmap.Map], sm_val[&rmap.Map], Record.Key
+//@ ensures {C18} result == nil <==> old(isRec(rmap, key))
+//@ ensures {C18} result == nil ==> isRec(rmap, newkey) && recOf(rmap, newkey) == old(recOf(rmap, key))
+//@ ensures {C18} result == nil && key != newkey ==> !hasRec(rmap, key)
+//@ ensures {C18} recsOK(rmap)
+//@ ensures {C18} forall k iface :: k != iface(key) && k != iface(newkey) ==> sm_dom[&rmap.Map][k] == old(sm_dom[&rmap.Map][k]) && sm_val[&rmap.Map][k] == old(sm_val[&rmap.Map][k])
